@@ -611,6 +611,9 @@ def make_matrix(m):
         a, b = ('from', 'to') if kind == 'from_to' else ('range', 'mean')
         idx = pd.MultiIndex.from_arrays([pd.IntervalIndex.from_tuples([tuple(map(float, i)) for i in m[a]]),
                                          pd.IntervalIndex.from_tuples([tuple(map(float, i)) for i in m[b]])], names=[a, b])
+    if m.get('extra'):
+        arrays = [pd.Index(m['extra'], name='element_id')] + ([idx] if kind == 'range' else [idx.get_level_values(i) for i in range(2)])
+        idx = pd.MultiIndex.from_arrays(arrays, names=['element_id'] + list(idx.names))
     return pd.Series([float(v) for v in m['values']], index=idx, name='cycles')
 
 
@@ -722,6 +725,8 @@ def gen_matrix_case(rng):
         m['range'], m['mean'] = [p[0] for p in pairs], [p[1] for p in pairs]
     else:
         m['range'] = [fresh(lambda: gen_ivl(rng, nonneg=True)) for _ in range(n)]
+    if rng.random() < 0.3:
+        m['extra'] = [10 * (1 + i % 2) for i in range(n)]
     op = None
     if rng.random() < 0.6:
         k = rng.choice(['scale', 'shift'])
@@ -841,6 +846,8 @@ def gen_rebin_case(rng):
         k = rng.choice([1, 1, 2, 3, 4, 5, 7])
         inner = sorted({round(rng.uniform(lo, hi) * rng.choice([4, 8, 10])) / rng.choice([4, 8, 10]) for _ in range(k - 1)})
         e = [lo - rng.choice([0, 0, 0.5, 2.0])] + [x for x in inner if lo < x < hi] + [hi + rng.choice([0, 0, 0.25, 3.0])]
+        if rng.random() < 0.3:          # classes beside the source that merely touch it
+            e = sorted(set([lo - 1.0, lo] + e + [hi, hi + 0.5]))
         ivs = breaks(e)
     elif r < 0.75:    # same binning / refinement of the source classes
         pts = sorted({x for l, rr, _ in h for x in (l, rr)} | {lo + (hi - lo) * rng.random() for _ in range(rng.randint(0, 3))})
@@ -915,7 +922,11 @@ def rel_rebin2d(case):
     s = pd.Series([float(v) for v in vals], index=idx, name='cycles')
     with warnings.catch_warnings():
         warnings.simplefilter('ignore')
-        out = rebin_histogram(s, pd.IntervalIndex.from_breaks(te))
+        if case.get('target_y'):
+            tgt = pd.MultiIndex.from_product([pd.IntervalIndex.from_breaks(te), pd.IntervalIndex.from_breaks(case['target_y'])], names=case['names'])
+        else:
+            tgt = pd.IntervalIndex.from_breaks(te)
+        out = rebin_histogram(s, tgt)
     fails = []
     if not close(out.values.sum(), s.values.sum()):
         fails.append(('rebin_histogram of a two-dimensional histogram does not conserve the total', (float(s.values.sum()), float(out.values.sum()))))
@@ -924,14 +935,15 @@ def rel_rebin2d(case):
     else:
         # exact expectation: rebin along the first level, then along the second (the redistribution is separable)
         X, Y, T = [F(x) for x in xe], [F(y) for y in ye], breaks([F(t) for t in te])
+        TY = breaks([F(t) for t in case['target_y']]) if case.get('target_y') else T
         nx, ny = len(X) - 1, len(Y) - 1
         grid = [[F(vals[i * ny + j]) for j in range(ny)] for i in range(nx)]
         step1 = [o_rebin([((X[i], X[i + 1]), grid[i][j]) for i in range(nx)], T) for j in range(ny)]        # [j][a]
         exp = {}
         for a in range(len(T)):
-            col = o_rebin([((Y[j], Y[j + 1]), step1[j][a]) for j in range(ny)], T)
-            for bidx in range(len(T)):
-                exp[(T[a], T[bidx])] = col[bidx]
+            col = o_rebin([((Y[j], Y[j + 1]), step1[j][a]) for j in range(ny)], TY)
+            for bidx in range(len(TY)):
+                exp[(T[a], TY[bidx])] = col[bidx]
         for k, v in series_items(out):
             kk = ((F(k[0].left), F(k[0].right)), (F(k[1].left), F(k[1].right)))
             if kk not in exp or not close(v, exp[kk]):
@@ -947,7 +959,11 @@ def gen_rebin2d_case(rng):
     lo, hi = min(xe[0], ye[0]), max(xe[-1], ye[-1])
     te = sorted({lo, hi} | {lo + (hi - lo) * rng.random() for _ in range(rng.randint(1, 3))})
     vals = [float(rng.choice([0, 1, 2, 3, 5])) for _ in range((len(xe) - 1) * (len(ye) - 1))]
-    return {'rel': 'rebin2d', 'x': xe, 'y': ye, 'values': vals, 'target': te, 'names': rng.choice([['range', 'mean'], ['from', 'to']])}
+    case = {'rel': 'rebin2d', 'x': xe, 'y': ye, 'values': vals, 'target': te, 'names': rng.choice([['range', 'mean'], ['from', 'to']])}
+    if rng.random() < 0.4:          # one binning per class level
+        case['target'] = sorted({xe[0], xe[-1]} | {xe[0] + (xe[-1] - xe[0]) * rng.random() for _ in range(rng.randint(1, 3))})
+        case['target_y'] = sorted({ye[0], ye[-1]} | {ye[0] + (ye[-1] - ye[0]) * rng.random() for _ in range(rng.randint(1, 3))})
+    return case
 
 
 # ------------------------------------------------------------------------------------------------ relation: combine_histogram
